@@ -201,10 +201,10 @@ def run_exec(cmd, cases, per_case_timeout=10.0, label=''):
         inp = ''.join(json.dumps({'id': c['id'], 'case': c['case']}) + '\n' for c in todo)
         budget = max(60.0, per_case_timeout * 4 + 0.02 * len(todo))
         try:
-            p = subprocess.run(cmd, input=inp, capture_output=True, text=True, timeout=budget)
-            lines, rc, timed_out = p.stdout.splitlines(), p.returncode, False
+            p = subprocess.run(cmd, input=inp.encode(), capture_output=True, timeout=budget)
+            lines, rc, timed_out = p.stdout.decode('utf-8', 'replace').splitlines(), p.returncode, False      # an executor may print a non-UTF-8 string it was handed
         except subprocess.TimeoutExpired as ex:
-            so = ex.stdout.decode() if isinstance(ex.stdout, bytes) else (ex.stdout or '')
+            so = ex.stdout.decode('utf-8', 'replace') if isinstance(ex.stdout, bytes) else (ex.stdout or '')
             lines, rc, timed_out = so.splitlines(), 124, True
         got = 0
         for l in lines:
